@@ -502,7 +502,7 @@ fn random_tlv_section(rng: &mut Rng, budget: usize) -> Vec<u8> {
         if v.len() + 3 + len > budget {
             break;
         }
-        v.push(*rng.pick(&[1u8, 2, 3, 4, 5, 0x20, 0x21, 0x30, 0xEE, 0]));
+        v.push(*rng.pick(&[1u8, 2, 3, 4, 5, 0x20, 0x21, 0x30, 0xEE, 0xEA, 0xE0, 0]));
         if rng.chance(1, 10) && v.len() + 3 + 90 <= budget {
             // a nested PP2_TYPE_SSL structure
             let val = crate::builder::ssl_value(rng.below(2048) as usize);
